@@ -42,6 +42,18 @@ def check_setting(number, choice):
     sg = SpaceGroup(number, choice)
     ops = sg.symmetry_operations
     codes = [int(o.integer_code) for o in ops]
+    # the object is the requested setting: number, choice and the operation codes tabulated for exactly this (number, choice)
+    import json
+    import os
+    import chmpy.crystal.space_group as sgmod
+    table = json.load(open(os.path.join(os.path.dirname(sgmod.__file__), "sgdata.json")))
+    rows = [r for r in table[str(number)] if str(r[6]) == str(choice)]
+    if int(sg.international_tables_number) != int(number) or str(sg.choice) != str(choice):
+        bad.append("SpaceGroup(%d, %r) is setting %s:%s" % (number, choice, sg.international_tables_number, sg.choice))
+    if len(rows) != 1:
+        bad.append("setting %d:%s tabulated %d times" % (number, choice, len(rows)))
+    elif sorted(codes) != sorted(int(c) for c in rows[0][8]):
+        bad.append("SpaceGroup(%d, %r) does not carry the operations tabulated for this setting" % (number, choice))
     if len(set(codes)) != len(codes):
         bad.append("duplicate operations")
     if 16484 not in codes:
